@@ -708,6 +708,12 @@ static void per_call_invariants(Exec *ex, ConnState &c, int dir, const CallRec &
     size_t hard = ex->cfg->field_limit_hard;
     if (cp->in_buf_size > hard) violate(ex, "C10", "C10.in_buf_over_hard_limit", strfmt("in_buf_size=%zu hard=%zu", cp->in_buf_size, hard));
     if (cp->out_buf_size > hard) violate(ex, "C10", "C10.out_buf_over_hard_limit", strfmt("out_buf_size=%zu hard=%zu", cp->out_buf_size, hard));
+    // while a line is being buffered, the pending (possibly folded) header it may belong to counts too: the check made at buffering
+    // time is in_buf + new piece + pending header <= hard limit, and the pending header does not change until the line is complete
+    if (cp->in_buf_size > 0 && cp->in_header && cp->in_buf_size + bstr_len(cp->in_header) > hard)
+        violate(ex, "C10", "C10.in_buf_plus_pending_header_over_hard_limit", strfmt("in_buf_size=%zu pending header=%zu hard=%zu", cp->in_buf_size, bstr_len(cp->in_header), hard));
+    if (cp->out_buf_size > 0 && cp->out_header && cp->out_buf_size + bstr_len(cp->out_header) > hard)
+        violate(ex, "C10", "C10.out_buf_plus_pending_header_over_hard_limit", strfmt("out_buf_size=%zu pending header=%zu hard=%zu", cp->out_buf_size, bstr_len(cp->out_header), hard));
     if (cp->in_header && bstr_len(cp->in_header) >= HTP_MAX_HEADER_FOLDED + hard)
         violate(ex, "C10", "C10.in_header_over_cap", strfmt("len=%zu", bstr_len(cp->in_header)));
     if (cp->out_header && bstr_len(cp->out_header) >= HTP_MAX_HEADER_FOLDED + hard)
